@@ -19,12 +19,37 @@ def main(argv):
     logging.disable(logging.CRITICAL)
     from pybufrkit.decoder import Decoder, generate_bufr_message
     with open(argv[0]) as f:
-        stream = bytes.fromhex(f.read().strip())
-    out = dict(messages=[], error=None)
+        lines = [ln.strip() for ln in f.read().splitlines() if ln.strip()]
+    # one stream per line, scanned one after the other in this process; a line starting with '!' is expected to be refused
+    segments = [(ln.startswith('!'), bytes.fromhex(ln.lstrip('!'))) for ln in lines]
+    out = dict(messages=[], error=None, segment_errors=[])
+    variant = argv[1] if len(argv) > 1 else 'default'
+    kw = {'filter': dict(filter_expr='${%length} > 0 and ${%edition} >= 2'), 'continue': dict(continue_on_error=True),
+          'unwired': dict(wire_template_data=False)}.get(variant, {})
+    for expect_refusal, stream in segments:
+        if expect_refusal:
+            try:
+                for m in generate_bufr_message(Decoder(), stream, **kw):
+                    pass
+            except BaseException as e:
+                out['segment_errors'].append(type(e).__name__)
+            continue
+        scan(out, stream, kw)
+        if out['error']:
+            break
     try:
-        variant = argv[1] if len(argv) > 1 else 'default'
-        kw = {'filter': dict(filter_expr='${%length} > 0 and ${%edition} >= 2'), 'continue': dict(continue_on_error=True),
-              'unwired': dict(wire_template_data=False)}.get(variant, {})
+        from pybufrkit.tables import TableGroupCacheManager
+        c = TableGroupCacheManager._TABLE_GROUP_CACHE
+        out['extra_b'] = len(c.extra_b_entries)
+        out['extra_d'] = len(c.extra_d_entries)
+    except Exception:
+        pass
+    json.dump(out, sys.stdout)
+
+
+def scan(out, stream, kw):
+    from pybufrkit.decoder import Decoder, generate_bufr_message
+    try:
         for m in generate_bufr_message(Decoder(), stream, **kw):
             td = m.template_data.value
             out['messages'].append(dict(
@@ -35,14 +60,6 @@ def main(argv):
                 links=[sorted(dict(x).items()) for x in td.bitmap_links_all_subsets]))
     except BaseException as e:
         out['error'] = '%s: %s' % (type(e).__name__, str(e)[:200])
-    try:
-        from pybufrkit.tables import TableGroupCacheManager
-        c = TableGroupCacheManager._TABLE_GROUP_CACHE
-        out['extra_b'] = len(c.extra_b_entries)
-        out['extra_d'] = len(c.extra_d_entries)
-    except Exception:
-        pass
-    json.dump(out, sys.stdout)
 
 
 if __name__ == '__main__':
